@@ -18,6 +18,14 @@ use undermoon::replication::replicator::{encode_repl_meta, MasterMeta, ReplicaMe
 fn gen_range_list(rng: &mut StdRng) -> RangeList {
     let n = rng.gen_range(1..=3);
     let mut pts: Vec<usize> = (0..2 * n).map(|_| rng.gen_range(0..16384)).collect();
+    // boundary slots
+    if rng.gen_bool(0.2) {
+        pts[0] = 0;
+    }
+    if rng.gen_bool(0.2) {
+        let k = pts.len() - 1;
+        pts[k] = 16383;
+    }
     pts.sort();
     pts.dedup();
     let mut rs = vec![];
@@ -25,7 +33,9 @@ fn gen_range_list(rng: &mut StdRng) -> RangeList {
     while i + 1 < pts.len() {
         // non-adjacent ranges so that the list is already compact
         if rs.last().map(|r: &Range| r.end() + 1 < pts[i]).unwrap_or(true) {
-            rs.push(Range(pts[i], pts[i + 1]));
+            // one range in four is a single slot (start == end)
+            let end = if rng.gen_bool(0.25) { pts[i] } else { pts[i + 1] };
+            rs.push(Range(pts[i], end));
         }
         i += 2;
     }
